@@ -589,3 +589,102 @@ Proof.
   - destruct cs' as [|c' cs']; [discriminate|]. injection E as E1 E2.
     apply chunked_cons; [lia|auto].
 Qed.
+
+(* ---------------------------------------------------------------------------------------- *)
+(* number of chunks *)
+
+Lemma concat_length_le : forall n (cs : list bytes),
+  Forall (fun c => length c <= n) cs -> length (concat cs) <= n * length cs.
+Proof.
+  induction 1; [simpl; lia|]. cbn [concat length]. rewrite app_length. lia.
+Qed.
+
+Lemma chunks_count_bound : forall l, length l <= 16 * length (chunks 16 l).
+Proof.
+  intros l. rewrite <- (chunks_concat 16 l) at 1 by lia.
+  apply concat_length_le. eapply Forall_impl; [|apply (chunks_Forall_len 16 l); lia].
+  simpl. intros. lia.
+Qed.
+
+Lemma chunks_count_eq : forall n a b, 0 < n -> length a = length b ->
+  length (chunks n a) = length (chunks n b).
+Proof.
+  intros n a b Hn. revert b.
+  apply (chunk_ind n Hn (fun a => forall b, length a = length b ->
+           length (chunks n a) = length (chunks n b))); clear a.
+  - intros b H. destruct b; [reflexivity|discriminate].
+  - intros a Hne IH b H.
+    assert (b <> []) by (apply nonnil_length; apply nonnil_length in Hne; lia).
+    rewrite (chunks_cons n a), (chunks_cons n b) by assumption. cbn [length]. f_equal.
+    apply IH. rewrite !skipn_length. lia.
+Qed.
+
+
+(* ---------------------------------------------------------------------------------------- *)
+(* Generic "xor the chunks of the message with successive key-stream blocks" — the shape of
+   every counter-mode / stream cipher definition in Spec/ (SM4-CTR, ChaCha20, ...).
+   [blk s] = key-stream block in state s (always n bytes), [next] = state update. *)
+Section XorStream.
+  Variable S : Type.
+  Variable blk : S -> bytes.
+  Variable next : S -> S.
+  Variable n : nat.
+  Hypothesis n_pos : 0 < n.
+  Hypothesis blk_len : forall s, length (blk s) = n.
+
+  Fixpoint xs_chunks (s : S) (cs : list bytes) : bytes :=
+    match cs with
+    | [] => []
+    | c :: t => xor_bytes c (blk s) ++ xs_chunks (next s) t
+    end.
+
+  Fixpoint xs_ks (s : S) (k : nat) : bytes :=
+    match k with
+    | O => []
+    | Datatypes.S k' => blk s ++ xs_ks (next s) k'
+    end.
+
+  Lemma xs_ks_length : forall k s, length (xs_ks s k) = n * k.
+  Proof.
+    induction k; intros s; cbn [xs_ks length]; [lia|]. rewrite app_length, blk_len, IHk. lia.
+  Qed.
+
+  Lemma xs_chunks_flat : forall msg s,
+    xs_chunks s (chunks n msg) = xor_bytes msg (xs_ks s (length (chunks n msg))).
+  Proof.
+    intros msg.
+    apply (chunk_ind n n_pos (fun msg => forall s,
+             xs_chunks s (chunks n msg) = xor_bytes msg (xs_ks s (length (chunks n msg))))).
+    - reflexivity.
+    - clear msg. intros msg Hne IH s.
+      rewrite chunks_cons by assumption. cbn [xs_chunks length xs_ks]. rewrite IH.
+      destruct (Nat.le_gt_cases n (length msg)) as [L|L].
+      + rewrite <- xor_bytes_app by (rewrite firstn_length, blk_len; lia).
+        now rewrite firstn_skipn.
+      + rewrite skipn_all2 by lia. rewrite firstn_all2 by lia.
+        rewrite chunks_nil. cbn [length xs_ks xor_bytes]. now rewrite !app_nil_r.
+  Qed.
+
+  Lemma chunks_count_bound_n : forall l, length l <= n * length (chunks n l).
+  Proof.
+    intros l. rewrite <- (chunks_concat n l) at 1 by exact n_pos.
+    apply concat_length_le. eapply Forall_impl; [|apply (chunks_Forall_len n l); exact n_pos].
+    simpl. intros. lia.
+  Qed.
+
+  Theorem xs_length : forall msg s, length (xs_chunks s (chunks n msg)) = length msg.
+  Proof.
+    intros. rewrite xs_chunks_flat, xor_bytes_length, xs_ks_length.
+    pose proof (chunks_count_bound_n msg). lia.
+  Qed.
+
+  Theorem xs_involutive : forall msg s,
+    xs_chunks s (chunks n (xs_chunks s (chunks n msg))) = msg.
+  Proof.
+    intros msg s.
+    rewrite (xs_chunks_flat (xs_chunks s (chunks n msg))).
+    rewrite (chunks_count_eq n (xs_chunks s (chunks n msg)) msg n_pos (xs_length msg s)).
+    rewrite xs_chunks_flat. apply xor_bytes_involutive.
+    rewrite xs_ks_length. apply chunks_count_bound_n.
+  Qed.
+End XorStream.
